@@ -215,10 +215,11 @@ Lemma oinv_same_core s s' :
   oinv s -> q_obj s' = q_obj s -> q_next s' = q_next s -> q_msgs s' = q_msgs s ->
   q_pending s' = q_pending s -> q_inflight s' = q_inflight s -> g_first s' = g_first s ->
   g_acked s' = g_acked s -> q_dead s' = q_dead s -> g_dlqlost s' = g_dlqlost s -> g_dropped s' = g_dropped s ->
+  g_reproc s' = g_reproc s ->
   oinv s'.
 Proof.
-  intros I E1 E2 E3 E4 E5 E6 E7 E8 E9 E10. destruct I as [A S L C F].
-  constructor; unfold acc, published, fresh, isfresh in *; rewrite ?E1, ?E2, ?E3, ?E4, ?E5, ?E6, ?E7, ?E8, ?E9, ?E10; assumption.
+  intros I E1 E2 E3 E4 E5 E6 E7 E8 E9 E10 E11. destruct I as [A S L C F].
+  constructor; unfold acc, published, fresh, isfresh in *; rewrite ?E1, ?E2, ?E3, ?E4, ?E5, ?E6, ?E7, ?E8, ?E9, ?E10, ?E11; assumption.
 Qed.
 
 Lemma oinv_step cfg s o : oinv s -> op_wf s o -> oinv (fst (step cfg s o)).
@@ -267,6 +268,7 @@ Proof.
     + exact (o_lt s I).
     + intros id. cbn [q_obj set_core]. rewrite cnt_keep. apply (o_cnt s I).
     + intros id H. cbn [q_obj q_inflight set_core] in *. rewrite cnt_keep. apply (o_infl s I). eapply In_remall. exact H.
+  - cbn [fst] in *. destruct I as [A0 S L C F]. constructor; [exact A|exact S|exact L|exact C|exact F].
 Qed.
 
 Lemma oinv_run_from cfg ops : forall s, oinv s -> wf_ops cfg s ops -> oinv (fst (run_from cfg s ops)).
